@@ -496,6 +496,9 @@ def run(repo: Repo, ctx) -> None:
            'non-canonical mode', ai.loc, sample='_canonicalize in innards')
 
     _r6(repo, ctx)
+    _r7(repo, ctx)
+    _r8(repo, ctx)
+    _r9(repo, ctx)
 
 
 OBJS = 'edb.schema.objects'
@@ -565,6 +568,161 @@ def _mutations_of(fnode: ast.AST, var: str):
         elif isinstance(n, ast.Call) and isinstance(n.func, ast.Attribute) \
                 and n.func.attr in MUTATORS and norm(n.func.value) == var:
             yield n, f'{var}.{n.func.attr}()'
+
+
+def _stored_taint(fn_node: ast.AST) -> Set[str]:
+    """local names that (transitively) hold values read from the stored
+    data map of this schema version"""
+    def has(e, names):
+        t = norm(e)
+        return 'self._id_to_data' in t or any(
+            isinstance(x, ast.Name) and x.id in names for x in ast.walk(e))
+    tainted: Set[str] = set()
+    changed = True
+    while changed:
+        changed = False
+        for n in ast.walk(fn_node):
+            tg, val = [], None
+            if isinstance(n, ast.Assign):
+                tg, val = n.targets, n.value
+            elif isinstance(n, (ast.AugAssign, ast.AnnAssign)) and \
+                    n.value is not None:
+                tg, val = [n.target], n.value
+            elif isinstance(n, ast.For):
+                tg, val = [n.target], n.iter
+            if val is None or not has(val, tainted):
+                continue
+            for t in tg:
+                base = t
+                while isinstance(base, (ast.Subscript, ast.Attribute)):
+                    base = base.value
+                for x in ([base] if isinstance(base, ast.Name) else [
+                        y for y in ast.walk(t) if isinstance(y, ast.Name)]):
+                    if x.id not in tainted and x.id != 'self':
+                        tainted.add(x.id)
+                        changed = True
+    return tainted
+
+
+def _r7(repo: Repo, ctx) -> None:
+    """old / new roles of the index maintenance helpers: the `old` argument
+    comes from what this version stores, the `new` one from the caller."""
+    ctx.floor('C04.R7', 6)
+    fs = repo.cls(f'{SCH}.FlatSchema')
+    for f in sorted(fs.methods.values(), key=lambda x: x.name):
+        calls = [c for c in ast.walk(f.node) if isinstance(c, ast.Call)
+                 and norm(c.func) in ('self._update_refs_to',
+                                      'self._update_obj_name')
+                 and len(c.args) >= 4]
+        if not calls:
+            continue
+        ctx.saw(f)
+        taint = _stored_taint(f.node)
+
+        def role(e):
+            if norm(e) == 'None':
+                return 'none'
+            return 'stored' if 'self._id_to_data' in norm(e) or any(
+                isinstance(x, ast.Name) and x.id in taint
+                for x in ast.walk(e)) else 'incoming'
+        for c in calls:
+            helper = norm(c.func).split('.')[-1]
+            old, new = role(c.args[2]), role(c.args[3])
+            ok = old in ('stored', 'none') and new in ('incoming', 'none') \
+                and (old, new) != ('none', 'none')
+            ctx.ob('C04.R7', f'{f.name}:{helper}:roles', ok,
+                   f'{f.name} calls {helper}(.., old={norm(c.args[2])}, '
+                   f'new={norm(c.args[3])}): the old argument is {old} and '
+                   f'the new one {new}; the helper removes the `old` '
+                   f'entries and adds the `new` ones, so with the roles '
+                   f'exchanged a cleared reference / name stays in the '
+                   f'index (stale referrer, LookupError after its owner is '
+                   f'dropped) and a new one is never recorded', f.loc,
+                   sample=f'old={old} new={new}')
+
+
+LAYERS = ('_base_schema', '_top_schema', '_global_schema')
+# ChainedSchema queries whose answer is the union over the three layers
+AGGREGATES = ('get_referrers', 'get_referrers_ex', '_get_object_ids')
+
+
+def _r8(repo: Repo, ctx) -> None:
+    """A chained schema answers reverse-reference queries from all three
+    layers: a reference may cross layers (a user-schema extension refers to
+    a global extension package)."""
+    from ..model import inline_locals
+    ctx.floor('C04.R8', 3)
+    cs = repo.cls(f'{SCH}.ChainedSchema')
+    for name in AGGREGATES:
+        f = cs.methods.get(name)
+        if f is None:
+            raise AnalysisError(f'ChainedSchema.{name} not found')
+        ctx.saw(f)
+        rets = [r for r in walk_no_nested(f.node)
+                if isinstance(r, ast.Return) and r.value is not None]
+        if not rets:
+            raise AnalysisError(f'ChainedSchema.{name}: no return')
+        for r in rets:
+            flat = inline_locals(f.node, r.value, 4)
+            miss = [l for l in LAYERS if f'self.{l}' not in flat]
+            ctx.ob('C04.R8', f'ChainedSchema.{name}:all-layers@L'
+                   f'{r.lineno - f.node.lineno}', not miss,
+                   f'ChainedSchema.{name} can answer without consulting '
+                   f'{miss}: referrers living in that layer are invisible, '
+                   f'so the referrer check lets an object be dropped while '
+                   f'something in another layer still points at it',
+                   f.loc, sample='union over base, top and global')
+
+
+def _r9(repo: Repo, ctx) -> None:
+    """A name enters the name index only past the "already exists" test
+    (and, for qualified names, the module-exists test)."""
+    ctx.floor('C04.R9', 2)
+    f = repo.func(f'{SCH}.FlatSchema._update_obj_name')
+    ctx.saw(f)
+    ps = f.params()
+    newp = ps[4] if len(ps) > 4 else 'new_name'
+    g = CFG(f.node)
+    writers = []
+    for n in g.nodes:
+        if n.kind != 'stmt' or n.ast is None:
+            continue
+        for x in ast.walk(n.ast):
+            if isinstance(x, ast.Call) and isinstance(x.func, ast.Attribute) \
+                    and x.func.attr == 'set' and x.args and norm(
+                        x.func.value) in ('name_to_id', 'globalname_to_id'):
+                k = norm(x.args[0])
+                if newp in k or k == 'key':
+                    writers.append((n.id, norm(x.func.value), k))
+            if isinstance(n.ast, ast.Assign):
+                for t in n.ast.targets:
+                    if isinstance(t, ast.Subscript) and newp in norm(t.slice) \
+                            and x is n.ast:
+                        writers.append((n.id, '<mutation>', norm(t.slice)))
+    if len(writers) < 2:
+        raise AnalysisError('C04.R9: name-index writers of _update_obj_name '
+                            'not found')
+    for nid, mp, key in writers:
+        tests = [t.id for t in g.nodes if t.kind == 'test' and isinstance(
+            t.ast, ast.Compare) and isinstance(t.ast.ops[0], ast.In)
+            and norm(t.ast.left) == key and (
+                mp == '<mutation>' or norm(t.ast.comparators[0]) == mp)]
+        ok = any(g.edge_dominates(t, 'F', nid) for t in tests)
+        ctx.ob('C04.R9', f'_update_obj_name:{mp}[{key}]:exists-check', ok,
+               f'_update_obj_name stores {key} into {mp} on a path that did '
+               f'not take the false branch of `{key} in ...` (the branch '
+               f'that raises "already exists"): renaming onto a taken name '
+               f'silently re-points the name at another object; the former '
+               f'owner stays in the data maps, unreachable by name',
+               f.loc, sample=f'{key} in {mp} -> raise, else set')
+        if mp == 'name_to_id' or mp == '<mutation>':
+            mt = [t.id for t in g.nodes if t.kind == 'test'
+                  and 'has_module' in norm(t.ast)]
+            ok = any(g.edge_dominates(t, 'F', nid) for t in mt)
+            ctx.ob('C04.R9', f'_update_obj_name:{mp}[{key}]:module-check',
+                   ok, f'a qualified name is stored without the '
+                   f'module-exists test', f.loc,
+                   sample='unknown module -> raise')
 
 
 def _r6(repo: Repo, ctx) -> None:
